@@ -8,6 +8,7 @@
 """
 
 import math
+import re
 from . import compatibility
 from . import utilities
 from . import shortcuts
@@ -115,6 +116,19 @@ def kv_options(*knotvectors):
     except (IndexError, TypeError, ValueError):
         normalized = True
     return dict(normalize_kv=normalized)
+
+
+def natural_sort_key(name):
+    """ Sort key which orders the numbers inside file names by value, e.g. "smesh.2.txt" before "smesh.10.txt".
+
+    The multi-file exporters number their files as 1, 2, ..., N without zero padding.
+
+    :param name: file name
+    :type name: str
+    :return: sort key
+    :rtype: list
+    """
+    return [(0, int(tok), "") if tok.isdigit() else (1, 0, tok) for tok in re.split(r"(\d+)", name) if tok != ""]
 
 
 def import_surf_mesh(file_name):
